@@ -133,8 +133,10 @@ func init() {
 				for _, b := range []string{drv.BBolt, drv.Badger} {
 					eng.SchedExplore(&eng.SchedConfig{Scenario: sc, Backend: b, Mode: eng.ModeReduced, Bound: -1, Budget: budget(tier, 60*time.Second, 10*time.Minute), Own: tags}, run)
 					if tier == "thorough" {
-						eng.SchedExplore(&eng.SchedConfig{Scenario: sc, Backend: b, Mode: eng.ModeTxPoints, Bound: 3, Budget: 5 * time.Minute, Own: tags}, run)
-						eng.SchedExplore(&eng.SchedConfig{Scenario: sc, Backend: b, Mode: eng.ModeEveryCall, Bound: 2, Budget: 5 * time.Minute, Own: tags}, run)
+						eng.SchedExplore(&eng.SchedConfig{Scenario: sc, Backend: b, Mode: eng.ModeTxPoints, Bound: 4, Budget: 5 * time.Minute, Own: tags}, run)
+						eng.SchedExplore(&eng.SchedConfig{Scenario: sc, Backend: b, Mode: eng.ModeEveryCall, Bound: 3, Budget: 5 * time.Minute, Own: tags}, run)
+					} else {
+						eng.SchedExplore(&eng.SchedConfig{Scenario: sc, Backend: b, Mode: eng.ModeEveryCall, Bound: 1, Budget: 60 * time.Second, Own: tags}, run)
 					}
 				}
 			}
